@@ -76,6 +76,16 @@ class FilesystemIsolation(ContextDecorator):
         to_add = (self._abspath(p) for p in paths if p is not None)
         self._created.update(to_add)
 
+    def _new_paths(self, *paths: os.PathLike | str | int | None) -> list:
+        """Of the given paths, those that do not exist yet (only these may be recorded as created)."""
+        return [
+            p
+            for p in paths
+            if p is not None
+            and not isinstance(p, int)
+            and not os.path.lexists(self._abspath(p))  # noqa: PTH110
+        ]
+
     def _forget(self, *paths: os.PathLike | str | None) -> None:
         """Forget paths (on deletion/move). Uses discard to avoid exceptions."""
         for p in paths:
@@ -118,12 +128,14 @@ class FilesystemIsolation(ContextDecorator):
                 if abs_forget not in self._created:
                     raise PermissionError(f"Attempted to modify non-isolated path: {abs_forget}")
 
+            rec = self._get_arg(args, kwargs, record_arg_idx)
+            dst = self._get_arg(args, kwargs, record_dst_idx)
+            new_paths = self._new_paths(rec, dst)
+
             res = original_func(*args, **kwargs)
 
             try:
-                rec = self._get_arg(args, kwargs, record_arg_idx)
-                dst = self._get_arg(args, kwargs, record_dst_idx)
-                self._record_created(rec, dst)
+                self._record_created(*new_paths)
             except Exception:  # noqa: BLE001
                 _LOGGER.warning("Failed to update bookkeeping for %s", original_func)
 
@@ -145,10 +157,11 @@ class FilesystemIsolation(ContextDecorator):
             # second positional arg may be mode, or kwargs['mode']
             file_arg = args[0] if args else kwargs.get("file")
             mode = kwargs.get("mode", args[1] if len(args) > 1 else "r")
+            new_paths = self._new_paths(file_arg)
             f = original_func(*args, **kwargs)
             if isinstance(mode, str) and self._is_write_mode(mode):
                 try:
-                    self._record_created(file_arg)
+                    self._record_created(*new_paths)
                 except Exception:  # noqa: BLE001
                     _LOGGER.warning("Failed to record created file: %s", file_arg)
             return f
@@ -172,10 +185,11 @@ class FilesystemIsolation(ContextDecorator):
         @functools.wraps(original_func)
         def tracked_os_open(path, flags, *args, **kwargs):
             should_record = bool(flags & write_flags)
+            new_paths = self._new_paths(path)
             fd = original_func(path, flags, *args, **kwargs)
             if should_record:
                 try:
-                    self._record_created(path)
+                    self._record_created(*new_paths)
                 except Exception:  # noqa: BLE001
                     _LOGGER.warning("Failed to record created path: %s", path)
             return fd
@@ -190,10 +204,11 @@ class FilesystemIsolation(ContextDecorator):
             abs_path = self._abspath(path_self)
             if abs_path not in self._created:
                 raise PermissionError(f"Attempted to rename/replace non-isolated path: {abs_path}")
+            new_paths = self._new_paths(target)
             res = original_func(path_self, target)
             try:
                 self._forget(path_self)
-                self._record_created(res)
+                self._record_created(*new_paths)
             except Exception:  # noqa: BLE001
                 _LOGGER.warning(
                     "Failed to update bookkeeping for rename/replace: %s -> %s", path_self, target
